@@ -2,7 +2,7 @@
    Executable definitions only; proofs are in Proofs/Refcache.v.
 
    One machine covers both caches:
-     - LRUCache  = capacity [cap] (0 = unlimited, as groupcache/lru), done() never evicts
+     - LRUCache  = capacity [cap] (0 = unlimited; negative: nothing stays cached — as groupcache/lru), done() never evicts
                    (harness only issues Release _ false), no timers;
      - TTLCache  = cap 0, done(evict), timer body = [Expire k] (the AfterFunc closure:
                    lock; evictLocked(key)), which may fire at any time, also for a key whose
@@ -17,7 +17,7 @@ Import ListNotations.
 Record ent := mkEnt { e_key : nat; e_refs : Z; e_fin : bool }.
 
 Record st := mkSt {
-  cap  : nat;                    (* MaxEntries; 0 = no limit *)
+  cap  : Z;                      (* MaxEntries as given to lru.New: 0 = no limit; negative = every Add evicts at once *)
   lru  : list (nat * nat);       (* (key, value id), most recently used first *)
   ents : list ent;               (* every refCounter ever created *)
   hs   : list (nat * bool);      (* done closures: (value id, once-already-fired) *)
@@ -31,7 +31,9 @@ Inductive op :=
 | Expire (k : nat)
 | Release (h : nat) (evict : bool).
 
-Definition init (c : nat) : st := mkSt c [] [] [] [].
+Definition initZ (c : Z) : st := mkSt c [] [] [] [].
+(* the capacities used by the other models (C11, C12) are natural numbers *)
+Definition init (c : nat) : st := initZ (Z.of_nat c).
 
 Fixpoint upd {A} (l : list A) (n : nat) (x : A) : list A :=
   match l, n with
@@ -99,7 +101,8 @@ Definition evict_key (s : st) (k : nat) : st :=
 
 (* lru.Cache.Add of a fresh key: PushFront, then RemoveOldest when over capacity *)
 Definition trim (s : st) : st :=
-  if negb (Nat.eqb (cap s) 0) && Nat.ltb (cap s) (length (lru s)) then
+  (* if c.MaxEntries != 0 && c.ll.Len() > c.MaxEntries { c.RemoveOldest() } *)
+  if negb (Z.eqb (cap s) 0) && Z.ltb (cap s) (Z.of_nat (length (lru s))) then
     match last (map Some (lru s)) None with
     | Some (k, _) => evict_key s k
     | None => s
@@ -191,9 +194,9 @@ Fixpoint outs_eqb (a b : list out) : bool :=
   end.
 
 (* a case = capacity, op list, outputs observed on the implementation *)
-Definition case := (nat * list op * list out)%type.
+Definition case := (Z * list op * list out)%type.
 Definition case_ok (c : case) : bool :=
-  let '(cp, os, obs) := c in outs_eqb (snd (run (init cp) os)) obs.
+  let '(cp, os, obs) := c in outs_eqb (snd (run (initZ cp) os)) obs.
 Fixpoint mismatches_from (n : nat) (cs : list case) : list nat :=
   match cs with
   | [] => []
